@@ -332,7 +332,13 @@ fn do_stream<'a>(
 fn exec_inner(src: &Dyn, objs: &[&Dyn], kind: &OpKind, ctx: &ExecCtx) -> Answer {
   match kind {
     OpKind::Source => Answer::Text(src.source().into_owned()),
-    OpKind::Buffer => Answer::Bytes(src.buffer().into_owned()),
+    OpKind::Buffer => {
+      let b = src.buffer().into_owned();
+      // look at every byte: under Miri a byte nobody wrote is reported here
+      // (copying it around is not)
+      std::hint::black_box(b.iter().fold(0u8, |a, x| a ^ *x));
+      Answer::Bytes(b)
+    }
     OpKind::Size => Answer::Size(src.size() as u64),
     OpKind::Rope => Answer::Text(src.rope().to_string()),
     OpKind::ToWriter { plan } => {
